@@ -172,7 +172,8 @@ else:
     def auto_literal(cls: type[T]):
         args = get_args(cls)
 
-        mapping = {}
+        # Plain integers are looked up by their value (the string given on the CLI is parsed like AutoInt)
+        mapping = {arg: arg for arg in args if type(arg) is int}
 
         for arg in args:
             if isinstance(arg, Enum):
